@@ -345,11 +345,13 @@ func (u *ut0311) Listen(signal chan any, done chan any, callback func([]byte)) e
 	}
 
 	closed := false
+	released := make(chan any)
 
 	go func() {
 		<-signal
 		closed = true
 		c.Close()
+		close(released)
 	}()
 
 	go func() {
@@ -374,6 +376,8 @@ func (u *ut0311) Listen(signal chan any, done chan any, callback func([]byte)) e
 			callback(m[:N])
 		}
 
+		// ... wait for the socket to be released before reporting 'done'
+		<-released
 		close(done)
 	}()
 
